@@ -559,7 +559,11 @@ func instrument(p *pkgInfo, f *fileInfo) []byte {
 					repl(se.Pos(), se.End(), "verifrt."+se.Sel.Name)
 				case "Tick":
 					repl(se.Pos(), se.End(), "verifrt.TimeTick")
-				case "After", "NewTimer", "NewTicker", "AfterFunc":
+				case "After", "NewTimer":
+					if p.dir == "dag" {
+						repl(se.Pos(), se.End(), "verifrt."+se.Sel.Name)
+					}
+				case "NewTicker", "AfterFunc":
 					if p.dir == "dag" {
 						unsupp = append(unsupp, fmt.Sprintf("%s: time.%s is not modelled", where(x), se.Sel.Name))
 					}
